@@ -13,4 +13,4 @@ pub mod clock;
 pub mod sched;
 pub mod vstd;
 
-pub use sched::{event, Ev};
+pub use sched::{event, untracked, Ev};
